@@ -226,8 +226,25 @@ def replay(ctx, path):
 
 
 MANIFEST = {
-    "level_text": "Lean 4 proof (in progress)",
-    "level_note": "see notes/C18.md",
-    "technique": "Lean 4 theorems over an exact model of rotateTime and the SecretManagerClient state machine + differential correspondence with the real Go code",
+    "level_text": ("Lean 4 proof. (1) rotateTime is modelled exactly over Int nanoseconds and exact fractions; for every lifetime, ratio and "
+                   "jitter value: delay >= 0, now + delay <= expire (rotate_not_after_expiry), strictly before expiry under the exact side "
+                   "condition floor(clamp(r-J)*L) >= 1 ns (rotate_strictly_before_expiry; strictness_needs_margin shows it is needed), "
+                   "monotonicity, and the hull of admissible delays used by the tie. (2) SecretManagerClient is modelled as processes "
+                   "interleaving at atomic steps (GenerateSecret for both resources, rotation callbacks, UpdateConfigTrustBundle, arbitrary CA "
+                   "behaviour); nine invariants are proved for every schedule (inv_reachable) and give pair_consistent, single_flight "
+                   "(<= 1 successful CA call between two cache clears - single_flight_segment -, same pair for all calls inside one epoch), "
+                   "one renewal per stored certificate scheduled no later than expiry, stale callbacks are no-ops, failure_not_sticky, "
+                   "root_change_announced (both resources, after the fix of F-C18), root_includes_ca (sorted duplicate-free union). "
+                   "Both models are tied to /repo on every run by differential execution of the real code."),
+    "level_note": ("Trusted: Lean kernel + {propext, Classical.choice, Quot.sound}; the hand-written models (tied by differential testing: "
+                   "real rotateTime observed 3x on 10^4 random certificates and judged by the model's interval with a float tolerance of "
+                   "|L|/2^50 + 2 ns; a real SecretManagerClient with a signing fake CA, recording queue and handler on 2500 random scripts, "
+                   "150 concurrent runs, 8 real-delayed-queue runs; quick tier); the verif-tagged accessor file "
+                   "security/pkg/nodeagent/cache/zz_verif_c18.go. Assumed: mutexes give atomic sections, the CA signs the CSR it is given, "
+                   "CreatedTime values of different CA responses differ, float64 rounding stays within the tolerance. Not modelled: "
+                   "file-mounted certificates / fsnotify paths, OutputKeyCertToDir, SDS push delivery (sdsservice.go), the gRPC CA client; "
+                   "pkg/queue/delay.go is executed but not modelled (the model lets a task run at any time, once). The scheduled delay is "
+                   "proved <= time to expiry from the instant rotateTime read the clock; the queue's enqueue latency comes on top."),
+    "technique": "Lean 4 theorems over an exact model of rotateTime and an atomic-step interleaving model of SecretManagerClient + differential correspondence with the real Go code",
     "design_ref": "DESIGN.md section 5 C18",
 }
